@@ -641,6 +641,10 @@ open EaselModel.Miniapps.Ali
 theorem compalign_self_is_perfect (kp : List (Bool × Nat)) :
     (seqCounts kp kp).2.2.1 = (seqCounts kp kp).1 ∧ (seqCounts kp kp).2.2.2 = (seqCounts kp kp).2.1 := seqCounts_self kp
 
+/-- correct never exceeds counted (every fraction of the table is at most 1), for all position lists -/
+theorem compalign_correct_le_counted (kp tp : List (Bool × Nat)) :
+    (seqCounts kp tp).2.2.1 ≤ (seqCounts kp tp).1 ∧ (seqCounts kp tp).2.2.2 ≤ (seqCounts kp tp).2.1 := seqCounts_le kp tp
+
 /-- non-vacuity: RF `x.xx`, trusted row `AC-G`, test row `A-CG`: residue 2 moved from the insert after RF 1 to RF 2 -/
 example : residuePositions EaselModel.Msa.Gen.rnaAbc [true, false, true, true] [0, 1, 4, 2] = [(true, 1), (false, 1), (true, 3)] := by decide +kernel
 example : seqCounts [(true, 1), (false, 1), (true, 3)] [(true, 1), (true, 2), (true, 3)] = (2, 1, 2, 0) := by decide
